@@ -270,6 +270,28 @@ CLAIMED = {
 NOT_YET = "model and proof not built yet in this development (see DESIGN.md 6 for the plan); not claimed until a check exists"
 
 
+# late additions (DESIGN.md 12.5 round 6): appended to the claim texts
+EXTRA = {
+    "C06": "rt/h_init.c also runs the real post natively from the reachable state 'one waiter announced, queue still empty' with a queue stub "
+           "that shows the waiter only at look K+1 (K up to 2^22): the post must wait it out (patience of the retry loop).",
+    "C07": "rt/h_init.c injects word states that rw_word_inv characterises as reachable (n readers; writer + n waiting; n around the powers of "
+           "two inside the 21-bit fields) and runs the real try-operations, unlocks and the blocking calls' decision to wait on them.",
+    "C09": "Scenario e of rt/h_sleep.c: 20000-70000 fibers asleep at once sharing one wake tick (more than the unit suite ever has), each must "
+           "return exactly once and not early.",
+    "C10": "The whole-runtime fairness layer also runs joins followed by yield-polling on 3-4 kernel threads; the runtime monitor checks the "
+           "fiber state word as a protocol (only the thread a fiber runs on turns RUNNING into READY).",
+    "C11": "Because the T1 machine has no migration and no descriptor waits, every run also executes whole-runtime (T2) programs of channel "
+           "sends/receives and multi-signal waits mixed with the other kinds of suspension (descriptor wait ended by close, sleep, join), "
+           "judged by the kernel acceptor's monitor.",
+    "C12": "The harness object is built by the real fiber_barrier_init on 0x5a-filled memory (only the queue stub nodes are replaced).",
+    "C16": "Case families include counters crossing 2^16/2^31/2^32/2^33 and a claim stalled across a lap of the ring.",
+    "C19": "The whole-runtime layer also runs mixed-suspension programs (what one kind of wait leaves in the fiber is what the next starts from).",
+}
+for _k, _v in EXTRA.items():
+    _t = CLAIMED[_k]
+    CLAIMED[_k] = (_t[0], _t[1] + " " + _v) + tuple(_t[2:])
+
+
 def main():
     props = [json.loads(l) for l in open(os.path.join(V, "properties.jsonl"))]
     checks, na = [], []
